@@ -751,7 +751,18 @@ fn hello_case_xml(c: &Value) -> String {
         s => sid_el(sid_text(s).unwrap_or("1")),
     };
     let capsel = if shape == "nocaps" { String::new() } else { format!("<{p}capabilities>{caps}</{p}capabilities>") };
-    let full = format!("<{p}hello {decl}>{capsel}{sids}</{p}hello>");
+    // an XML declaration in front (what lxml, libxml2, Java serialisers emit), comments and white space around the root
+    let xmldecl = match c["decl"].as_str().unwrap_or("none") {
+        "upper" => "<?xml version=\"1.0\" encoding=\"UTF-8\"?>",
+        "lower" => "<?xml version='1.0' encoding='utf-8'?>\n",
+        "noenc" => "<?xml version=\"1.0\"?>",
+        "standalone" => "<?xml version=\"1.0\" encoding=\"Utf-8\" standalone=\"yes\" ?>\n",
+        "comment" => "<!-- router banner -->\n",
+        "trailing-comment" => "",
+        _ => "",
+    };
+    let tail = if c["decl"] == "trailing-comment" { "\n<!-- end -->\n" } else { "" };
+    let full = format!("{xmldecl}<{p}hello {decl}>{capsel}{sids}</{p}hello>{tail}");
     match shape {
         // content after the root element: not a well-formed document
         "trailing-text" => format!("{full}login: {EOM}"),
@@ -870,6 +881,24 @@ fn err_node(k: usize, severity: &str) -> Node {
     )
 }
 
+const JUNOS_NS: &str = "http://xml.juniper.net/junos/20.4R3/junos";
+
+/// an <rpc-error> with a vendor element between the standard ones, and vendor content inside <error-info>
+fn err_node_ext(k: usize, severity: &str) -> Node {
+    el(
+        "rpc-error",
+        vec![
+            tok("error-type", ERR_TYPES[k % 4]),
+            tok("error-tag", ERR_TAGS[k % 8]),
+            tok("error-severity", severity),
+            el_ns(JUNOS_NS, "source-daemon", vec![Node::Text("mgd".into())]),
+            txt("error-path", "/a/b"),
+            txt("error-message", &format!("m{k}")),
+            el("error-info", vec![txt("bad-element", "route-filter"), el_ns(JUNOS_NS, "line-number", vec![Node::Text("12".into())])]),
+        ],
+    )
+}
+
 fn templates() -> Vec<(&'static str, &'static str, Node)> {
     let reply = |kids: Vec<Node>| with_attrs(el("rpc-reply", kids), &[("message-id", "@ID@"), ("other", "x")]);
     vec![
@@ -894,6 +923,28 @@ fn templates() -> Vec<(&'static str, &'static str, Node)> {
         ),
         ("reply-ok", "lock", reply(vec![el("ok", vec![])])),
         ("reply-errors", "lock", reply(vec![err_node(1, "error"), err_node(2, "warning")])),
+        // servers extend <rpc-error> with elements of their own (Junos: <source-daemon>); whatever the library makes of
+        // them, it must not depend on whether the foreign namespace is declared as a prefix or as a default namespace
+        ("reply-errors-ext", "lock", reply(vec![err_node_ext(1, "error"), err_node_ext(2, "error")])),
+        ("reply-bare-error", "open-configuration", reply(vec![err_node(1, "error")])),
+        // text outside ASCII everywhere (descriptions, messages): multi-byte characters next to whatever goes wrong
+        (
+            "reply-nonascii",
+            "lock",
+            reply(vec![el(
+                "rpc-error",
+                vec![
+                    tok("error-type", "application"),
+                    tok("error-tag", "operation-failed"),
+                    tok("error-severity", "error"),
+                    txt("error-path", "/configuration/interfaces/interface[name='\u{e4}\u{f6}\u{fc}-\u{6f22}\u{5b57}']"),
+                    txt("error-message", "\u{e9}\u{e8}\u{ea} l\u{2019}interface \u{6f22}\u{5b57}\u{6f22}\u{5b57} n\u{2019}existe pas \u{1f600}\u{1f600} \u{e4}\u{f6}\u{fc}\u{df}"),
+                    el("error-info", vec![txt("bad-element", "\u{e4}\u{f6}\u{fc}\u{6f22}\u{5b57}\u{e9}\u{1f600}")]),
+                ],
+            )]),
+        ),
+        ("reply-data-nonascii", "get", reply(vec![el("data", vec![el_ns("urn:example", "description", vec![Node::Text("\u{e4}\u{f6}\u{fc} \u{6f22}\u{5b57}\u{6f22}\u{5b57} \u{e9}t\u{e9} \u{1f600} \u{e4}\u{f6}\u{fc}\u{df}\u{e4}\u{f6}\u{fc}\u{df}\u{e4}\u{f6}\u{fc}\u{df}".into())])])])),
+        ("reply-bare-error-ext", "close-configuration", reply(vec![err_node_ext(1, "error")])),
         ("reply-data", "get", reply(vec![el("data", vec![el_ns("urn:example", "top", vec![el_ns("urn:example", "a", vec![Node::Text("1".into())])])])])),
         ("reply-data-empty", "get", reply(vec![el("data", vec![])])),
         ("reply-bare", "open-configuration", reply(vec![])),
@@ -964,6 +1015,7 @@ fn c13_digest(op: &str, doc: &str) -> String {
         "lock" => go!(Lock, |b| b.target(Datastore::Running)?.finish(), |_v: ()| String::new()),
         "get" => go!(Get, |b| b.filter(None).finish(), |v: Opaque| canonical_fragment(&v.to_string())),
         "open-configuration" => go!(OpenConfiguration, |b| b.ephemeral(Some("inst")).finish(), |_v: ()| String::new()),
+        "close-configuration" => go!(CloseConfiguration, |b| b.finish(), |_v: ()| String::new()),
         "load-configuration" => go!(
             LoadConfiguration<_>,
             |b| b.source(Config::new(Raw("<configuration/>".into()), Xml, Merge)).finish(),
@@ -1215,6 +1267,26 @@ fn mutate(base: &[u8], op: &str, p: usize, q: usize, seed: u64) -> Vec<u8> {
             }
             v = if s.is_ascii() { outs.into_bytes() } else { s.into_bytes() };
         }
+        // one byte position (p * 64 + q): cut there, or make that byte invalid UTF-8
+        "trunc@" => v.truncate((p * 64 + q).min(n)),
+        "bad@" => {
+            let i = (p * 64 + q).min(n.saturating_sub(1));
+            if n > 0 {
+                v[i] = 0xff;
+            }
+        }
+        // deep nesting where the grammar has room for arbitrary content: inside <error-info>, inside <data>, inside an
+        // extension element of <rpc-error>, in a foreign namespace (p selects the place, q the depth class)
+        "deepat" => {
+            let s = String::from_utf8_lossy(base).to_string();
+            let depth = [300usize, 3000, 100_000][q % 3];
+            let (open, close) = ("<x:a xmlns:x=\"urn:example:vendor\">".to_string() + &"<x:a>".repeat(depth - 1), "</x:a>".repeat(depth));
+            let place = ["<error-info>", "<data>", "<rpc-error>", "<load-configuration-results>", "<capabilities>"][p % 5];
+            if let Some(at) = s.find(place) {
+                let at = at + place.len();
+                v = format!("{}{}{}{}", &s[..at], open, close, &s[at..]).into_bytes();
+            }
+        }
         "empty" => v.clear(),
         "random" => {
             let mut r = rand::rngs::StdRng::seed_from_u64(seed);
@@ -1289,11 +1361,14 @@ fn strict_header_id(msg: &[u8]) -> Option<u64> {
     e.attr("message-id")?.parse().ok()
 }
 
-fn c14(cases_path: &str, out: &mut dyn Write) {
+fn c14(cases_path: &str, from: usize, out: &mut dyn Write) {
     use rand::SeedableRng as _;
     let v: Value = serde_json::from_str(&std::fs::read_to_string(cases_path).unwrap()).unwrap();
     let tmpls = templates();
     for (k, c) in v["cases"].as_array().unwrap().iter().enumerate() {
+        if k < from {
+            continue;
+        }
         let tname = c["tmpl"].as_str().unwrap_or("");
         let Some((_, op, tree)) = tmpls.iter().find(|(n, _, _)| *n == tname) else { continue };
         let base = xmlgen::render(tree, &Style::default());
@@ -1402,6 +1477,9 @@ fn c14(cases_path: &str, out: &mut dyn Write) {
             Err(_) => ev["panic"] = json!(true),
         }
         writeln!(out, "{ev}").unwrap();
+        // one line per case, on disk before the next case starts: if the process dies (stack overflow, abort), the
+        // case that killed it is the first one without a line
+        out.flush().unwrap();
     }
 }
 
@@ -1416,7 +1494,7 @@ fn main() {
         Some("c12") => c12(&args[2], &mut out),
         Some("c13") => c13(&args[2], &mut out),
         Some("c10") => c10(&args[2], &mut out),
-        Some("c14") => c14(&args[2], &mut out),
+        Some("c14") => c14(&args[2], args.get(3).and_then(|s| s.parse().ok()).unwrap_or(0), &mut out),
         _ => {
             eprintln!("usage: wire c08 <cases.json> [quick] | wire c09 <contents.json> <capsets.json> | wire c12 <cases.json>");
             std::process::exit(2);
